@@ -182,6 +182,25 @@ def random_cases(family, rng, count):
                         "pre": [{"k": "shift_x", "v": R(sh)}, {"k": "scale_x", "v": R(sc)}], "n": rng.choice([2, 3, 5, 9, n]), "method": "linear"})
             out.append({"fn": "winterp", "mode": "n", "x": X, "y": Y, "n": rng.choice([2, 3, 5, 9, 17, 33, n, 2 * n + 1]),
                         "method": rng.choice(["linear", "linear", "constant", "cubic", "spline"]) if n >= 4 else "linear"})
+            # ... and after the series has been made denser than its reference and then cut (seed C13i: a grid anchored on the
+            # reference series): interpolate(m), m - 1 a power of two, then truncate_by_index / truncate_by_value - the judge gets
+            # the exact rational series after that history
+            m = rng.choice([5, 9, 17])
+            gx = [xs[0] + span * Fraction(j, m - 1) for j in range(m)]
+            ysf = [Fraction(*v) for v in Y]
+            def lin(t):
+                k = max(i for i in range(n) if xs[i] <= t)
+                k = min(k, n - 2)
+                return ysf[k] + (ysf[k + 1] - ysf[k]) * (t - xs[k]) / (xs[k + 1] - xs[k])
+            gy = [lin(t) for t in gx]
+            a = rng.randrange(0, m - 2)
+            b = rng.randrange(a + 2, m + 1)
+            if (a, b) != (0, m) and max(v.denominator for v in gx + gy) <= 4096:
+                cut = {"k": "truncate_index", "start": a, "stop": b} if rng.random() < 0.5 else \
+                    {"k": "truncate_value", "left": R(gx[a]), "right": R(gx[b - 1]), "lr": False, "rr": False}
+                out.append({"fn": "winterp", "mode": "n", "x0": X, "y0": Y, "x": [R(v) for v in gx[a:b]], "y": [R(v) for v in gy[a:b]],
+                            "pre": [{"k": "interpolate_n", "n": m, "method": "linear"}, cut],
+                            "n": rng.choice([2, 3, 5, 9, b - a]), "method": "linear"})
         elif family == "pointwise":
             c = [R(Fraction(rng.randint(-8, 8), 4)) for _ in range(3)]
             xs2, ys2 = rseries(rng, 2, 12, den=2)
